@@ -39,6 +39,14 @@ typedef struct lltd_iface_state {
 
 static lltd_iface_state *g_iface_states = NULL;
 
+#ifdef LLTD_VERIF_HOOKS
+/* Verification builds only: observation/yield point, implemented by the test harness. */
+void lltd_verif_hook(const char *point, void *iface_ctx);
+#define LLTD_VERIF_POINT(point, ctx) lltd_verif_hook((point), (ctx))
+#else
+#define LLTD_VERIF_POINT(point, ctx) ((void)0)
+#endif
+
 /* Upper bound on probes remembered between two Queries (per interface). */
 #define LLTD_SEE_LIST_MAX 1024
 
@@ -55,6 +63,7 @@ static lltd_iface_state *lltd_state_for_iface(void *iface_ctx) {
         }
     }
 
+    LLTD_VERIF_POINT("iface_state:create", iface_ctx);
     lltd_iface_state *st = (lltd_iface_state *)lltd_port_malloc(sizeof(*st));
     if (!st) {
         return NULL;
